@@ -21,7 +21,10 @@ Cycles == /\ pc = "cycles"
           /\ UNCHANGED <<mask, t>>
 Next == Trim \/ Cycles
 Spec == Init /\ [][Next]_vars
+\* liveness form of C03's fixed point: trimming always ends (graph or error)
+FairSpec == Spec /\ WF_vars(Next)
 Term == pc \in {"done", "error"}
+Termination == <>Term
 DoneClosed == pc = "done" => Closed(N, cur, t) /\ cur \subseteq mask /\ cur # {}
 Removed == [][\A v \in cur \ cur' : pc = "trim" => Cardinality(SuccSet(N, v) \cap cur) < t]_vars
 RoundBound == rnd <= Cardinality(mask) + 1
